@@ -457,6 +457,9 @@ def _has_exact_specifier(marker: MarkerExpression) -> bool:
         return False
     if marker.name not in marker._VERSION_LIKE_MARKER_NAME:
         return True
+    if marker.op == "===":
+        # arbitrary equality compares strings; its operand must not be padded or ordered
+        return False
     try:
         marker.specifier
     except UnparsableSpecifier:
